@@ -104,6 +104,15 @@ ReadsBack ==
 NewlineFixGood ==
   IsDoc => \A m \in ToSet(st.exps), v \in {"newline", "newline-extent"} : Good(Text, Fix(Text, m, st.cls, v), m, st.cls)
 
+\* T2c: ... and keeps the comments of the first toplevel in front of it; the historical insertion point behind the
+\* comments that follow an import without `;` does not (they become the new import's), and that is the only case
+NewlineFixKeepsComments ==
+  IsDoc => \A m \in ToSet(st.exps) :
+             /\ GoodWithComments(Text, Fix(Text, m, st.cls, "newline"), m, st.cls)
+             /\ LET h == ParseHeader(Text)
+                IN GoodWithComments(Text, Fix(Text, m, st.cls, "newline-extent"), m, st.cls)
+                     <=> (h.nImports = 0 \/ h.lastExtent = h.lastEnd)
+
 \* T3: the fix the implementation computes today (no separator) satisfies it exactly when there is no
 \* import or the character before the insertion point ends a token by itself: the `;` of the last import
 \* or the `/` that closes a block comment.  In particular gluing in front of `class` (zero imports) is
